@@ -495,15 +495,21 @@ def expand(sk):
     return res
 
 
+EMPTY = set()      # names of functions in scope whose skeleton is empty (set by extract_all)
+
+
 def extract_all(facts):
     sk = Skel(facts)
     out = {}
+    EMPTY.clear()
     for p, it in sorted(facts.hir.items()):
         if MOD not in p or it.get("body") is None or "::tests" in p or it["defkind"] not in ("Fn", "AssocFn"):
             continue
         if it["name"] in PRIMITIVES:
             continue            # their exact meaning is P-PRIM's / P-FULLMATCH's business
         s = expand(to_json(sk.of_fn(it)))
+        if not s:
+            EMPTY.add(it["name"])
         if s:
             key = it["name"]
             im = (it.get("impl") or {})
@@ -609,7 +615,12 @@ def rule_P_SKELETON(ctx, floor=30):
         d = diff(r["skeleton"], s)
         ctx.ob("P-SKELETON", name, d is None, d or "", site)
     for name in sorted(set(ref) - set(got)):
-        ctx.ob("P-SKELETON", name, False, "reviewed production has no function any more (renamed / removed / no longer consuming)")
+        if name.rsplit("::", 1)[-1] in EMPTY:
+            ctx.ob("P-SKELETON", name, False, "the function no longer consumes anything (its reviewed production is gone)")
+        else:
+            # the function itself is gone (inlined into its caller, renamed): not a violation by itself -- every caller is compared with
+            # its own reviewed production, which names the callee
+            ctx.extra.setdefault("reviewed_functions_removed", []).append(name)
     ctx.sample({"rule": "P-SKELETON", "functions": len(got), "example": {"consume_truth": got.get("consume_truth", ([], None))[0]}})
 
 
